@@ -93,6 +93,7 @@ type Exec struct {
 	timeNow    int
 	randCtr    int
 	ifconvOK   map[*ssa.BasicBlock]*ifRegion
+	lockEvents []string
 }
 
 type qres struct {
@@ -116,6 +117,7 @@ func (e *Exec) end(kind, msg string) {
 func (e *Exec) check(extra ...*sym.Term) (sym.Result, *sym.Model) {
 	as := make([]*sym.Term, 0, len(e.pc)+len(extra))
 	as = append(as, e.pc...)
+	nBase := len(e.pc)
 	for _, x := range extra {
 		if x.IsFalse() {
 			return sym.Unsat, nil
@@ -142,7 +144,7 @@ func (e *Exec) check(extra ...*sym.Term) (sym.Result, *sym.Model) {
 	if !e.cfg.Deadline.IsZero() && time.Now().After(e.cfg.Deadline) {
 		e.end("limit", "instance deadline exceeded")
 	}
-	r, m := e.solver.Check(as, true)
+	r, m := e.solver.CheckInc(as, nBase, true)
 	if r == sym.Sat && m != nil {
 		// validate the model against our own evaluator (guards the encoding)
 		memo := map[int]*big.Int{}
